@@ -55,8 +55,8 @@ func init() {
 			{Name: "enum values no longer printed", File: astValueGo, Rule: "C05-R2", Key: "PrintValue",
 				Old: "\tcase ValueKindEnum:\n\t\t_, err = w.Write(d.Input.ByteSlice(d.EnumValues[value.Ref].Name))\n", New: ""},
 			{Name: "interface extension forgets the argument delimiters (sibling drift)", File: printerGo, Rule: "C05-R3", Key: "InterfaceType",
-				Old: "\tp.write(p.document.InterfaceTypeExtensionNameBytes(ref))\n\tp.write(literal.SPACE)\n\n\tp.inputValueDefinitionOpener = literal.LPAREN\n\tp.inputValueDefinitionCloser = literal.RPAREN\n",
-				New: "\tp.write(p.document.InterfaceTypeExtensionNameBytes(ref))\n\tp.write(literal.SPACE)\n"},
+				Old: "\tp.inputValueDefinitionOpener = literal.LPAREN\n\tp.inputValueDefinitionCloser = literal.RPAREN\n}\n\nfunc (p *printVisitor) LeaveInterfaceTypeExtension(ref int) {",
+				New: "}\n\nfunc (p *printVisitor) LeaveInterfaceTypeExtension(ref int) {"},
 		},
 	}
 }
